@@ -244,7 +244,7 @@ static int cond_get_exp (int priority) {
     }
   else if (ispunct (c))
     {
-      x = optab1[c];
+      x = _optab[c - ' '];
       if (!x)
         {
           yyerrorp ("illegal character in %cif");
@@ -339,7 +339,7 @@ static int cond_get_exp (int priority) {
       /* the operator table covers the printable ASCII range only (bytes above 127 are negative chars here) */
       if (c < ' ' || c > '~')
         break;
-      x = optab1[c];
+      x = _optab[c - ' '];
       if (!x)
         break;
       value2 = *outptr++;
